@@ -95,25 +95,47 @@ fn unary_ops() -> Vec<Op> {
 fn bounds(op: &Op, tier: Tier) -> Vec<(u32, u32)> {
     let q = tier == Tier::Quick;
     match op {
-        Op::FromIter(_) | Op::FromIterUnbounded => vec![if q { (6, 3) } else { (8, 4) }],
-        Op::Interval(_) => vec![if q { (6, 2) } else { (8, 3) }],
+        Op::FromIter(_) | Op::FromIterUnbounded => vec![if q { (8, 4) } else { (10, 6) }],
+        Op::Interval(_) => vec![if q { (6, 2) } else { (7, 3) }],
         Op::Map | Op::Filter(_) | Op::Scan(_) | Op::Take(_) | Op::Skip(_) | Op::Comp(..) => {
-            vec![if q { (5, 3) } else { (7, 4) }]
+            if q {
+                vec![(7, 4)]
+            } else {
+                vec![(9, 5)]
+            }
         },
-        Op::ForEach(_) => vec![if q { (6, 3) } else { (8, 4) }],
+        Op::ForEach(_) => vec![if q { (8, 4) } else { (10, 6) }],
         Op::Merge(n) | Op::Concat(n) | Op::Combine(n) => match n {
-            0 | 1 => vec![if q { (5, 3) } else { (7, 4) }],
-            2 => vec![if q { (4, 2) } else { (5, 3) }],
+            0 | 1 => vec![if q { (7, 4) } else { (9, 5) }],
+            2 => {
+                if q {
+                    vec![(5, 3)]
+                } else {
+                    vec![(7, 3), (6, 4)]
+                }
+            },
             _ => {
                 if q {
-                    vec![(3, 1)]
-                } else {
                     vec![(4, 2)]
+                } else {
+                    vec![(5, 3)]
                 }
             },
         },
-        Op::Flatten => vec![if q { (4, 2) } else { (6, 3) }],
-        Op::Share => vec![if q { (4, 2) } else { (6, 3) }],
+        Op::Flatten => {
+            if q {
+                vec![(5, 3)]
+            } else {
+                vec![(7, 3), (6, 4)]
+            }
+        },
+        Op::Share => {
+            if q {
+                vec![(5, 3)]
+            } else {
+                vec![(7, 4)]
+            }
+        },
     }
 }
 
@@ -157,7 +179,10 @@ pub fn proto_worlds(tier: Tier, with_foreach: bool, with_sources: bool) -> Vec<W
             s.name = format!("{} x{}", s.name, probes);
             if probes == 3 {
                 s.cfg.d = s.cfg.d.saturating_sub(1).max(1);
-                s.cfg.e = s.cfg.e.min(5);
+                s.cfg.e = s.cfg.e.min(6);
+            }
+            if probes == 1 {
+                s.cfg.e += 1;
             }
         }));
     }
@@ -219,7 +244,7 @@ pub fn c07_worlds(tier: Tier) -> Vec<WorldSpec> {
         ops.push(Op::Take(n));
         ops.push(Op::Skip(n));
     }
-    let (e, d, budget) = if q(tier) { (6, 3, 3) } else { (8, 4, 4) };
+    let (e, d, budget) = if q(tier) { (9, 4, 4) } else { (11, 5, 5) };
     ops.into_iter()
         .map(|op| {
             let mut s = spec(op, e, d);
@@ -234,21 +259,17 @@ pub fn c07_worlds(tier: Tier) -> Vec<WorldSpec> {
 pub fn fanin_worlds(tier: Tier, mk: impl Fn(usize) -> Op) -> Vec<WorldSpec> {
     let mut v = vec![];
     for n in 1..=3usize {
-        let (e, d) = match (n, q(tier)) {
-            (1, true) => (6, 3),
-            (1, false) => (8, 4),
-            (2, true) => (5, 2),
-            (2, false) => (6, 3),
-            (_, true) => (4, 1),
-            (_, false) => (5, 2),
+        let bs: Vec<(u32, u32)> = match (n, q(tier)) {
+            (1, true) => vec![(7, 4)],
+            (1, false) => vec![(9, 5)],
+            (2, true) => vec![(5, 3), (4, 4)],
+            (2, false) => vec![(7, 3), (6, 4)],
+            (_, true) => vec![(4, 2)],
+            (_, false) => vec![(5, 3)],
         };
-        let mut s = spec(mk(n), e, d);
-        s.name = format!("{} E={} D={}", s.name, e, d);
-        v.push(s);
-        if n == 2 && q(tier) {
-            // a deeper reaction bound on a shorter horizon
-            let mut s = spec(mk(n), 3, 3);
-            s.name = format!("{} E=3 D=3", s.name);
+        for (e, d) in bs {
+            let mut s = spec(mk(n), e, d);
+            s.name = format!("{} E={} D={}", s.name, e, d);
             v.push(s);
         }
     }
@@ -257,7 +278,7 @@ pub fn fanin_worlds(tier: Tier, mk: impl Fn(usize) -> Op) -> Vec<WorldSpec> {
 
 pub fn c11_worlds(tier: Tier) -> Vec<WorldSpec> {
     let mut v = vec![];
-    let bs: Vec<(u32, u32)> = if q(tier) { vec![(5, 2), (4, 3)] } else { vec![(7, 3), (6, 4)] };
+    let bs: Vec<(u32, u32)> = if q(tier) { vec![(5, 3)] } else { vec![(7, 3), (6, 4)] };
     for (e, d) in bs {
         let mut s = spec(Op::Flatten, e, d);
         s.name = format!("{} E={} D={}", s.name, e, d);
@@ -270,12 +291,12 @@ pub fn c12_worlds(tier: Tier) -> Vec<WorldSpec> {
     let mut v = vec![];
     for probes in 1..=3u8 {
         let (e, d) = match (probes, q(tier)) {
-            (1, true) => (6, 3),
-            (1, false) => (8, 4),
-            (2, true) => (6, 2),
-            (2, false) => (8, 3),
-            (_, true) => (6, 1),
-            (_, false) => (7, 2),
+            (1, true) => (8, 4),
+            (1, false) => (10, 5),
+            (2, true) => (6, 3),
+            (2, false) => (8, 4),
+            (_, true) => (6, 2),
+            (_, false) => (8, 3),
         };
         let mut s = spec(Op::Share, e, d);
         s.cfg.max_probes = probes;
@@ -320,10 +341,10 @@ pub fn c14_worlds(tier: Tier) -> Vec<WorldSpec> {
     ops.into_iter()
         .map(|op| {
             let (e, d) = match (&op, q(tier)) {
-                (Op::Concat(3), true) | (Op::Flatten, true) => (6, 3),
-                (Op::Concat(3), false) | (Op::Flatten, false) => (8, 4),
-                (_, true) => (7, 4),
-                (_, false) => (9, 5),
+                (Op::Concat(3), true) | (Op::Flatten, true) => (8, 4),
+                (Op::Concat(3), false) | (Op::Flatten, false) => (10, 5),
+                (_, true) => (9, 5),
+                (_, false) => (12, 6),
             };
             let mut s = spec(op, e, d);
             s.cfg.modes = vec![PMode::Pullable; 4];
@@ -337,7 +358,7 @@ pub fn c14_worlds(tier: Tier) -> Vec<WorldSpec> {
 
 pub fn c15_worlds(tier: Tier) -> Vec<WorldSpec> {
     let mut lists: Vec<Vec<i64>> = vec![vec![]];
-    let maxlen = if q(tier) { 3 } else { 4 };
+    let maxlen = if q(tier) { 4 } else { 5 };
     let mut frontier: Vec<Vec<i64>> = vec![vec![]];
     for _ in 0..maxlen {
         let mut next = vec![];
@@ -351,7 +372,7 @@ pub fn c15_worlds(tier: Tier) -> Vec<WorldSpec> {
         lists.extend(next.iter().cloned());
         frontier = next;
     }
-    let (e, d) = if q(tier) { (6, 3) } else { (9, 5) };
+    let (e, d) = if q(tier) { (8, 4) } else { (11, 6) };
     let mut v: Vec<WorldSpec> = lists
         .into_iter()
         .map(|xs| {
